@@ -72,6 +72,18 @@ fn size_for(len: usize, n: usize) -> Option<usize> {
 
 /// Real CRC-valid chunks (with the PadWing board name for the bank) for an abstract arrival sequence
 /// `rx` = [[board, chip, id, eom, size class, segment]...] of a message of `n` chunks.
+/// A board other than `dev`: usually one of the three whose device id is closest in Hamming distance (the
+/// ids of some boards differ in one or two bits only), sometimes any other.
+pub fn near_miss_dev<R: Rng>(rng: &mut R, devs: &[u32], dev: u32) -> u32 {
+    let mut others: Vec<u32> = devs.iter().copied().filter(|&d| d != dev).collect();
+    others.sort_by_key(|&d| ((d ^ dev).count_ones(), d));
+    if rng.gen_bool(0.75) {
+        others[rng.gen_range(0..3.min(others.len()))]
+    } else {
+        *others.choose(rng).unwrap()
+    }
+}
+
 pub fn concretize_rx<R: Rng>(rng: &mut R, rx: &[Value], n: usize) -> Vec<(String, Vec<u8>)> {
     // boards installed in the simulation map, so that a clean event really builds
     let maps = crate::evt::maps_for(crate::evt::SIM);
@@ -79,7 +91,11 @@ pub fn concretize_rx<R: Rng>(rng: &mut R, rx: &[Value], n: usize) -> Vec<(String
     installed.sort();
     installed.dedup();
     let b1 = installed[rng.gen_range(0..installed.len())].clone();
-    let b2 = installed.iter().find(|b| b.0 != b1.0).unwrap().clone();
+    let b2 = {
+        let ids: Vec<u32> = installed.iter().map(|b| b.1).collect();
+        let d2 = near_miss_dev(rng, &ids, b1.1);
+        installed.iter().find(|b| b.1 == d2).unwrap().clone()
+    };
     let chip = rng.gen_range(0..4u8);
     // a valid PWB payload that names the same board and chip as its chunks, long enough for n chunks
     let macs = [b1.2];
@@ -158,7 +174,7 @@ pub fn replay(run: &mut Runner, path: &str, seed: u64, concretisations: usize) {
                 }
             }
             let dev = *devs.choose(&mut rng).unwrap();
-            let other_dev = *devs.iter().find(|&&d| d != dev).unwrap();
+            let other_dev = near_miss_dev(&mut rng, &devs, dev);
             let chip = rng.gen_range(0..4u8);
             let raw: Vec<Vec<u8>> = rx
                 .iter()
@@ -231,7 +247,7 @@ pub fn random(run: &mut Runner, seed: u64, count: u64) {
                 let c = chunks[i].clone();
                 chunks.push(c);
             }
-            "board" => chunks[i].dev = *devs.iter().find(|&&d| d != dev).unwrap(),
+            "board" => chunks[i].dev = near_miss_dev(&mut rng, &devs, dev),
             "chip" => chunks[i].chip = (chip + 1) % 4,
             "eom" => chunks[i].flags ^= 1,
             "resize" => {
